@@ -358,8 +358,9 @@ def finish(prop, tier, seed, t0, *, obligations, discharged, assumptions, checke
         "wall_s": round(time.time() - t0, 2),
         "violations": len(violations),
     }
-    os.makedirs(os.path.join(VERIF, "evidence"), exist_ok=True)
-    with open(os.path.join(VERIF, "evidence", prop + ".json"), "w") as fh:
+    evdir = os.environ.get("VERIF_EVIDENCE_DIR") or os.path.join(VERIF, "evidence")   # seed tests write elsewhere
+    os.makedirs(evdir, exist_ok=True)
+    with open(os.path.join(evdir, prop + ".json"), "w") as fh:
         json.dump(ev, fh, indent=1, sort_keys=True, default=str)
         fh.write("\n")
     print("%s tier=%s seed=%d: %d theorem(s) checked, %d case(s) evaluated in Coq, "
